@@ -613,6 +613,10 @@ pub fn run_cmd(args: &Args) {
         let _ = std::fs::remove_dir_all(&d);
     }
     eprintln!("multi: shards {:?}", t0.elapsed());
+    // focus: `multi c02` keeps the C02 oracles (wrong data, hand-back, sized, panic, part), `multi c06`
+    // the C06 ones (byte identity across spawners / pool reuse / repeats / favor); no word = all
+    let c06 = |sig: &str| sig.starts_with("multi:spawner-differs") || sig.starts_with("multi:pool-reuse-differs") || sig.starts_with("multi:repeat-differs") || sig.starts_with("multi:favor-differs");
+    match args.rest.get(0).map(|s| s.as_str()) { Some("c02") => rep.violations.retain(|v| !c06(&v.signature)), Some("c06") => rep.violations.retain(|v| c06(&v.signature)), _ => {} }
     corr.finish();
     rep.write(&args.out);
 }
@@ -648,6 +652,53 @@ fn run_shard(args: &Args, task: usize) {
             if rep.samples.len() < 1 { rep.sample(c.json("")); }
         }
     }
+    // ---- C06 bonus: the REAL pool under the deterministic scheduler shim with REAL compression
+    // jobs: random schedules (uniform / sticky / spurious wake-ups) must give the bytes of the
+    // inline spawner; the pool is reused for a second call under the same schedule source
+    let nsched = if thorough { 40 } else { 6 };
+    for k in 0..nsched {
+        let mut rng = Rng::new(seed ^ 0x5C4ED ^ ((task as u64) << 20) ^ ((k as u64) << 36));
+        let mut c = gen_case(&mut rng, true);
+        c.t = rng.range(2, 6) as usize; c.q = *rng.pick(&[2, 4, 5, 6]); c.lgwin = *rng.pick(&[10, 16, 18]); c.large = false;
+        let workers = rng.range(1, 4) as usize;
+        let (params, input) = (c.params(), c.input());
+        let cap = BrotliEncoderMaxCompressedSizeMulti(c.n, c.t) + 64;
+        let reference = run_multi(Spawner::Inline, &params, &input, c.t, cap, None);
+        let outs = sched_run(&params, &input, c.t, cap, workers, rng.next(), *rng.pick(&[0u64, 10, 30]), *rng.pick(&[0u64, 50, 90]));
+        beat();
+        rep.count("sched.scenarios");
+        match outs {
+            None => rep.violation("multi:sched-stuck", "the pool got stuck or panicked under a scheduled run with real jobs", c.json(&format!(",\"workers\":{}", workers))),
+            Some(v) => { for o in v { if o.class != reference.class || o.bytes != reference.bytes { rep.violation("multi:spawner-differs", &format!("pool under a random schedule ({} workers) differs from the inline spawner: {} {} vs {} {}", workers, o.class, o.bytes.len(), reference.class, reference.bytes.len()), c.json("")); } else { rep.count("sched.equal_to_inline"); } } }
+        }
+    }
     corr.finish();
     rep.write(&args.out);
+}
+
+/// two CompressMulti calls on one pool of `workers` threads, every lock/wait/notify/spawn/join of
+/// the pool scheduled by a PRNG-driven chooser (brotli::enc::verif_sched)
+fn sched_run(params: &BrotliEncoderParams, input: &[u8], t: usize, cap: usize, workers: usize, seed: u64, spurious_pct: u64, sticky_pct: u64) -> Option<Vec<Outcome>> {
+    use brotli::enc::verif_sched as vs;
+    let mut rng = Rng::new(seed);
+    let mut last: Option<usize> = None;
+    let chooser: vs::Chooser = Box::new(move |run: &[usize], wait: &[usize]| {
+        if !wait.is_empty() && rng.below(100) < spurious_pct { return Some(vs::Choice::Wake(wait[rng.below(wait.len() as u64) as usize])); }
+        if run.is_empty() { return None; }
+        if let Some(l) = last { if run.contains(&l) && rng.below(100) < sticky_pct { return Some(vs::Choice::Run(l)); } }
+        let th = run[rng.below(run.len() as u64) as usize];
+        last = Some(th);
+        Some(vs::Choice::Run(th))
+    });
+    vs::install(chooser, Box::new(|| String::new()));
+    let mut outs = vec![];
+    let body = catch_unwind(AssertUnwindSafe(|| {
+        let pool: &'static mut Option<Pool> = Box::leak(Box::new(Some(brotli::enc::new_work_pool(workers))));
+        for _ in 0..2 { outs.push(run_multi(Spawner::PoolFresh, params, input, t, cap, pool.as_mut())); }
+        drop(pool.take());
+        vs::finish_submitter();
+    }));
+    let (_sched, trace, stuck) = vs::uninstall();
+    if body.is_err() || stuck || trace.iter().any(|x| x.contains("PANIC")) { return None; }
+    Some(outs)
 }
